@@ -1281,7 +1281,7 @@ def check_C10(ctx):
 
 
 # ---------------------------------------------------------------- C01 / C02
-LIFE_DEPS = CONT_DEPS | {"ContainerLife.v", "ContainerProgress.v", "ContainerMatrix.v", "GenChecks.v", "gen/GenApi.v", "Sync.v", "SyncProofs.v"}
+LIFE_DEPS = CONT_DEPS | {"ContainerLife.v", "ContainerProgress.v", "ContainerMeasure.v", "ContainerMatrix.v", "GenChecks.v", "gen/GenApi.v", "Sync.v", "SyncProofs.v"}
 
 
 def late_runs(ctx, n_quick, n_thorough):
